@@ -17,7 +17,7 @@ pub static DEF: PropDef = PropDef {
         "minimality is over annexes of length >= 1 (the 0x50 tag is mandatory) and is not required when the item count is 252 or 65535 (statement's exception)",
     ],
     shards: (16, 16),
-    budget_ms: (10_000, 30_000),
+    budget_ms: (60_000, 180_000),
 };
 
 fn cs_len(n: u64) -> u64 {
